@@ -171,7 +171,15 @@ where
         'epoll: loop {
             #[cfg(feature = "verif-hooks")]
             vhost::verif::wait_readable(self.epoll.as_raw_fd(), "worker.epoll_wait");
-            let num_events = match self.epoll.wait(-1, &mut events[..]) {
+            #[cfg(feature = "verif-hooks")]
+            let injected = vhost::verif::inject_errno("worker.epoll_wait");
+            #[cfg(not(feature = "verif-hooks"))]
+            let injected: Option<i32> = None;
+            let waited = match injected {
+                Some(errno) => Err(io::Error::from_raw_os_error(errno)),
+                None => self.epoll.wait(-1, &mut events[..]),
+            };
+            let num_events = match waited {
                 Ok(res) => res,
                 Err(e) => {
                     if e.kind() == io::ErrorKind::Interrupted {
